@@ -1,6 +1,5 @@
--- imports JsonEqualEquiv_proof.lean (Probe.JEqGEquiv) and JsonNumberLadder_proof.lean (Probe.JEqNumSpell)
-import Probe.JEqGEquiv
-import Probe.JEqNumSpell
+import JsonEqualEquiv_proof
+import JsonNumberLadder_proof
 /-! C18, assembled: the model of `json.Equal` (after D2/D12) on ASTs whose numbers are spellings. -/
 namespace JEqFinal
 open JEqG JEqNum
